@@ -322,3 +322,20 @@ CHECKS["C10"] = dict(
                              "hand-off across sets (per-thread vs process-wide) is not demanded (DESIGN.md scoping decision)"],
     deadline=dict(quick=150, thorough=900),
 )
+
+WAIT_ASSUME = MT_ASSUME + ["fork/wait4/kill of the library are served from a simulated process table (state-change queue in order, WNOHANG semantics, "
+                           "ECHILD when no child is left); the child side of register_spawn is not executed here (C19 does that)",
+                           "SIGCHLD is raised by the receiving thread on itself; the receiving thread is a program choice"]
+CHECKS["C11"] = dict(
+    quick=[R("h_wait", "bound=1 steps=6", sched=True), R("h_wait", "bound=2 steps=2", sched=True)],
+    thorough=[R("h_wait", "bound=2 steps=6", sched=True)],
+    rule="7 child populations (spawned through the library by loop 0 / loop 1, plain children without interest, interest registered by pid) x "
+         "first child exiting before fork() returns with its SIGCHLD going to loop 0 / loop 1 / a thread without a loop x driver programs of up "
+         "to 6 steps (stop, continue, exit, killed - with or without a SIGCHLD, SIGCHLD to any of the three threads, unregister, kill helper) x "
+         "handler action (unregister from the handler) x every schedule within the bound",
+    explanation="per interest the delivered statuses must equal the child's state changes in order, terminating status once and nothing after, in "
+                "the registering thread; at idle every change is delivered (or its interest unregistered) and - while any interest exists - "
+                "every child reaped; the kill helper must never reach a pid whose termination was reaped; queued status records freed",
+    assumptions=WAIT_ASSUME,
+    deadline=dict(quick=150, thorough=900),
+)
